@@ -50,6 +50,7 @@ func init() {
 			{ID: "C08-R25", Title: "attributes are discovered as they are accessed", Floor: 1, Run: attributesAreDiscoveredAsTheyAreAccessed},
 			{ID: "C08-R26", Title: "converters hand out what they take back", Floor: 10, Run: convertersHandOutWhatTheyTakeBack},
 			{ID: "C08-R27", Title: "recursion over Go types is guarded", Floor: 1, Run: recursionOverGoTypesIsGuarded},
+			{ID: "C08-R28", Title: "raised errors are not pushed as values", Floor: 1, Run: raisedErrorsAreNotPushedAsValues},
 		},
 	})
 }
